@@ -735,6 +735,50 @@ theorem mutator_sources_pinned :
     Gen.C41.appendChildSrc = appendChildSrcExpected ∧
     Gen.C41.removeChildSrc = removeChildSrcExpected := ⟨rfl, rfl, rfl⟩
 
+/-! ### T-fact about the acyclicity precondition (`c ∉ ancestors(n) ∪ {n}`) at the call sites -/
+
+/-- A node that no node has as its parent (just created by `&Node{…}` / `clone()`, not yet
+linked anywhere) and that is not `n` itself is not an ancestor of `n`: for such a child the
+acyclicity precondition of `AppendChild` / `InsertBefore` holds trivially. -/
+theorem fresh_not_ancestor (s : Store) (n c : Nat) (hne : n ≠ c) (hfresh : ∀ x, s.parent x ≠ some c) :
+    ¬ AncestorOrSelf s c n := by
+  intro ⟨k, hk⟩
+  have key : ∀ k n, iter s.parent (k + 1) n = some c → ∃ x, s.parent x = some c := by
+    intro k
+    induction k with
+    | zero =>
+      intro n h
+      cases hp : s.parent n with
+      | none => simp [iter, hp] at h
+      | some y => simp only [iter, hp, Option.some.injEq] at h; exact ⟨n, by rw [hp, h]⟩
+    | succ k ih =>
+      intro n h
+      cases hp : s.parent n with
+      | none => simp [iter, hp] at h
+      | some y => rw [iter_succ_some s.parent n y (k + 1) hp] at h; exact ih y h
+  cases k with
+  | zero => simp only [iter, Option.some.injEq] at hk; exact hne hk
+  | succ k => obtain ⟨x, hx⟩ := key k n hk; exact hfresh x hx
+
+/-- Regenerated from parse.go on every run: of the 30 places where package html hands a node
+to `AppendChild` / `InsertBefore` (directly or through `addChild` / `fosterParent` /
+`reparentChildren`), all but these four pass a node created on the spot (`&Node{…}` or
+`x.clone()`), for which `fresh_not_ancestor` applies. The four are `parseDoctype`'s new node in
+`initialIM` and the three re-attachments of `lastNode` in the adoption agency algorithm
+(`inBodyEndTagFormatting`); together with `furthestBlock.AppendChild(clone)` (a fresh node that
+has just been given children) these are the only places where acyclicity depends on the parser's
+own invariants — they are not syntactically checkable and are validated on every returned tree. -/
+theorem nonfresh_child_sites_pinned :
+    Gen.C41.nonFreshChildSites =
+      ["parse.go:initialIM AppendChild other:n",
+       "parse.go:inBodyEndTagFormatting AppendChild other:lastNode",
+       "parse.go:inBodyEndTagFormatting fosterParent other:lastNode",
+       "parse.go:inBodyEndTagFormatting AppendChild other:lastNode"] ∧
+    Gen.C41.paramForwarders =
+      ["parse.go:addChild fosterParent param:n", "parse.go:addChild AppendChild param:n",
+       "parse.go:fosterParent AppendChild param:n", "parse.go:fosterParent InsertBefore param:n"] ∧
+    Gen.C41.childArgSites.length = 30 := ⟨rfl, rfl, rfl⟩
+
 /-! ## Non-vacuity -/
 
 /-- document(0) → html(1) → [head(2), body(3)] -/
